@@ -355,6 +355,8 @@ pub fn scenarios(tier: &str) -> Vec<Scenario> {
         ]),
         // transactions without logs (a creation, a reverted call) between transactions with logs
         m_block("B(set,create,set,fail,set)", vec![s_set(0, 0, 1), s_call(1, vec![2]), s_set(2, 1, 2), s_call(0, vec![4]), s_set(1, 2, 3)]),
+        // two-digit transaction indexes and log indexes
+        m_block("B(12 txs, 3 senders)", (0..12u8).map(|i| if i % 4 == 3 { s_call(i % 3, vec![4]) } else { s_set(i % 3, i % 4, 1 + i) }).collect()),
         m_block("B(park s0n1, s0n0 drains, set)", vec![t(0, 1, 6), t(0, 0, 8), s_set(2, 2, 2)]),
         m_block("B(len0)", vec![zero_len.clone()]),
         m_block("B(len0,len0)", vec![zero_len.clone(), zero_len]),
